@@ -104,6 +104,11 @@ func (srv *Srv) attach(req *SrvReq) {
 	}
 
 	badafid := false
+	if tc.Afid != NOFID && tc.Afid == tc.Fid {
+		/* the fid being attached cannot be its own authentication fid */
+		badafid = true
+	}
+
 	if tc.Afid != NOFID {
 		req.Afid = conn.FidGet(tc.Afid)
 		if req.Afid == nil {
